@@ -106,7 +106,10 @@ KindsFor(rs, op) ==
   ELSE IF "r" \in rs \/ "t" \in rs
        THEN (IF rs = {"r"} THEN {TmpKind, Kind("plain", 0, "c")}
                                \cup (IF Rich = 1 THEN {Kind("real", 1, "nl"), Kind("real", 2, "nl")} ELSE {})
-             ELSE RealKinds \cup ConstKinds)
+             ELSE RealKinds \cup ConstKinds
+                  \* a receiver that is the -Inf operand of LogAdd / LogSub
+                  \cup (IF op \in {"LogAdd", "LogSub"} /\ "b" \in rs /\ "t" \notin rs
+                        THEN {Kind("plain", 0, "ninf"), Kind("magic0", 0, "ninf")} ELSE {}))
        ELSE RealKinds \cup ConstKinds \cup {Kind("const", 0, "c")}
             \cup (IF op \in {"LogAdd", "LogSub"} /\ rs = {"b"} THEN {NInfKind} ELSE {})
 
@@ -132,7 +135,10 @@ Content(cl, slot, n) ==
                       THEN (IF slot = 1 THEN Add(Mul(Two, X1), One) ELSE Add(Mul(QI(3), X1), Half))
                       ELSE (IF slot = 1 THEN Add(Add(Mul(Two, X1), Mul(QI(3), X2)), One)     \* 2 x1 + 3 x2 + 1
                                         ELSE Add(Sub(X1, Mul(Two, X2)), QI(4)))              \* x1 - 2 x2 + 4
-    [] cl = "c"    -> IF slot = 1 THEN QF(3, 2) ELSE Half
+    \* a constant (order-0 magic, plain Float / Int, ConstFloat64): the PARAMETER p_slot, a leaf that no
+    \* variable occurs in (D(p, i) = 0) and whose value is coordinate `slot` of the evaluation point, so
+    \* that constants walk through every branch region of the piecewise operations as well
+    [] cl = "c"    -> X(10 + slot)
     [] cl = "ninf" -> NInf
     [] cl = "zero" -> Zero
 
@@ -141,13 +147,26 @@ SlotOf(rs) == IF "a" \in rs THEN 1 ELSE IF "b" \in rs THEN 2 ELSE 1
 (* ---- evaluation points --------------------------------------------------- *)
 R2(a, b) == <<a, b>>
 Softplus == {"Log1pExp", "Sigmoid", "Logistic"}
+\* every point has two coordinates: the first n are the variables, coordinate `slot` is the value of
+\* the constant objects (parameters p_1, p_2)
+PowOps == {"Pow"}
 Points(op, n) ==
-  IF n = 1
-  THEN << <<R2(1, 2)>>, <<R2(3, 2)>> >> \o (IF Rich = 1 THEN << <<R2(5, 4)>> >> ELSE <<>>)
-       \o (IF op \in Softplus THEN << <<R2(5, 2)>>, <<R2(4, 1)>>, <<R2(-4, 1)>>, <<R2(-40, 1)>>, <<R2(20, 1)>> >> ELSE <<>>)
-  ELSE << <<R2(1, 2), R2(5, 4)>>, <<R2(3, 2), R2(3, 4)>> >> \o (IF Rich = 1 THEN << <<R2(5, 4), R2(1, 2)>> >> ELSE <<>>)
-       \o (IF op \in Softplus THEN << <<R2(4, 1), R2(1, 1)>>, <<R2(5, 2), R2(2, 1)>>, <<R2(-8, 1), R2(4, 1)>>,
-                                      <<R2(-40, 1), R2(20, 1)>>, <<R2(20, 1), R2(-40, 1)>> >> ELSE <<>>)
+  << <<R2(1, 2), R2(5, 4)>>, <<R2(3, 2), R2(3, 4)>>, <<R2(-3, 4), R2(5, 4)>> >>      \* a < b, a > b, a < 0
+  \o (IF Rich = 1 THEN << <<R2(5, 4), R2(1, 2)>> >> ELSE <<>>)
+  \* Log1pExp: x <= -37, (-37, 18], (18, 33.3], > 33.3 for variable, nonlinear and constant contents;
+  \* Sigmoid / Logistic: both signs
+  \o (IF op \in Softplus THEN << <<R2(4, 1), R2(1, 1)>>, <<R2(5, 2), R2(2, 1)>>, <<R2(-8, 1), R2(4, 1)>>,
+                                 <<R2(-40, 1), R2(20, 1)>>, <<R2(20, 1), R2(-40, 1)>>, <<R2(25, 1), R2(1, 1)>>,
+                                 <<R2(40, 1), R2(1, 1)>>, <<R2(5, 2), R2(1, 1)>> >> ELSE <<>>)
+  \* Pow: integer, negative and fractional exponents, base 0
+  \o (IF op \in PowOps THEN << <<R2(3, 2), R2(2, 1)>>, <<R2(0, 1), R2(2, 1)>>, <<R2(2, 1), R2(-1, 1)>>,
+                               <<R2(0, 1), R2(5, 4)>> >> ELSE <<>>)
+\* integer points for the integer scalar types
+IntPoints(op, n) ==
+  << <<R2(2, 1), R2(1, 1)>>, <<R2(1, 1), R2(3, 1)>>, <<R2(-2, 1), R2(3, 1)>> >>
+  \o (IF op \in Softplus THEN << <<R2(20, 1), R2(1, 1)>>, <<R2(25, 1), R2(3, 1)>>, <<R2(40, 1), R2(1, 1)>>,
+                                 <<R2(-40, 1), R2(2, 1)>>, <<R2(-8, 1), R2(4, 1)>> >> ELSE <<>>)
+  \o (IF op \in PowOps THEN << <<R2(2, 1), R2(3, 1)>>, <<R2(0, 1), R2(2, 1)>>, <<R2(3, 1), R2(0, 1)>> >> ELSE <<>>)
 
 (* ---- what the contract demands ------------------------------------------- *)
 SMeaning(op, par, ea, eb) ==
@@ -180,7 +199,7 @@ SCase(op, par, n, roles, f, ks) ==
   IN [fam |-> "scalar", op |-> op, par |-> par, n |-> n, objs |-> objs,
       roles |-> [r |-> rr, a |-> ra, b |-> rb, t |-> rt], pat |-> PatternName(roles, f),
       cls |-> IF TempShared(roles, f) THEN "info" ELSE "req",
-      pts |-> Points(op, n), exp |-> SExpect(op, par, n, objs, rr, ra, rb)]
+      pts |-> Points(op, n), ipts |-> IntPoints(op, n), exp |-> SExpect(op, par, n, objs, rr, ra, rb)]
 
 (* ---- groups: (operation, parameter, n, pattern) --------------------------- *)
 ScalarOps == UnaryOps \cup BinaryOps
@@ -196,7 +215,8 @@ SGroupOK(g) == Len(g.f) = Len(RolesOf(g.op))
 KindAssignments(g) ==
   LET roles == RolesOf(g.op)
       m     == NObj(g.f)
-  IN {ks \in [1..m -> RealKinds \cup ConstKinds \cup {TmpKind, NInfKind, Kind("const", 0, "c")}] :
+  IN {ks \in [1..m -> RealKinds \cup ConstKinds \cup {TmpKind, NInfKind, Kind("const", 0, "c"),
+                                                    Kind("plain", 0, "ninf"), Kind("magic0", 0, "ninf")}] :
         /\ \A j \in 1..m : ks[j] \in KindsFor(RoleSet(roles, g.f, j), g.op)
         /\ OrdersOK(ks, {j \in 1..m : RoleSet(roles, g.f, j) \cap {"a", "b"} # {}})
         \* patterns with a shared temporary are information only: one representative kind family
@@ -459,6 +479,41 @@ ForCont(g, Put(_)) ==
          \E i \in 0..2 : C(P, <<RowV(1, i), Whole(2, P), Whole(1, P)>>, 1, 2, 3)
 
 (***************************************************************************)
+(* SPECIAL OPERAND VALUES under aliasing (fam "xcont"): +Inf, -Inf, NaN and *)
+(* -0 entries meeting zero (for sparse storage: ABSENT) and finite entries  *)
+(* of the other operand, for the element-wise operations with the receiver  *)
+(* being the first operand, the second operand or both (same object).       *)
+(* Elements are the extended triples <<v, d, f>> of Containers.tla (IEEE    *)
+(* class algebra, XResult); the expectation is XResult on the PRE-state.    *)
+(* Floating point and magic element types only.                            *)
+(***************************************************************************)
+XE == {XFin(0), XFin(2), XInf, XNInf, XNaN, XNZero}
+XVecsA == {<<XFin(0), XFin(2), XFin(0)>>, <<XFin(2), XFin(0), XNaN>>, <<XFin(0), XFin(0), XFin(0)>>, <<XInf, XFin(0), XNZero>>}
+XVecsB == {<<XInf, XNaN, XNInf>>, <<XFin(0), XInf, XFin(2)>>, <<XNaN, XFin(0), XFin(0)>>, <<XFin(2), XNZero, XInf>>}
+XPairs == {<<<<x>>, <<y>>>> : x \in XE, y \in XE} \cup (XVecsA \X XVecsB)
+XSingles == {<<x>> : x \in XE} \cup XVecsA \cup XVecsB
+XPrior(n) == SeqOf(n, LAMBDA k : XFin(IF k % 2 = 1 THEN 2 ELSE -1))
+XOps == {"VaddV", "VsubV", "VmulV", "VdivV", "MaddM", "MsubM", "MmulM", "MdivM"}
+XSOps == {"VaddS", "VsubS", "VmulS", "VdivS", "MaddS", "MsubS", "MmulS", "MdivS"}
+XGroup(op) == [fam |-> "xcont", op |-> op]
+XCase(op, objs, rr, ra, rb, sc) ==
+  LET n    == Len(objs[ra])
+      isM  == op \in MatEw \cup MatEwS
+      res  == XResult(op, objs[ra], IF rb = 0 THEN <<>> ELSE objs[rb], sc, <<n, -1, 0>>)
+  IN [fam |-> "xcont", op |-> op, rows |-> IF isM THEN 1 ELSE n, cols |-> IF isM THEN n ELSE -1,
+      objs |-> objs, roles |-> [r |-> rr, a |-> ra, b |-> rb], s |-> sc, exp |-> res]
+ForSpecial(g, Put(_)) ==
+  IF g.op \in XOps
+  THEN \/ \E pr \in XPairs :
+            \/ Put(XCase(g.op, <<pr[1], pr[2]>>, 1, 1, 2, XFin(0)))                      \* r = a
+            \/ Put(XCase(g.op, <<pr[2], pr[1]>>, 1, 2, 1, XFin(0)))                      \* r = b
+            \/ Put(XCase(g.op, <<pr[1], pr[2], XPrior(Len(pr[1]))>>, 3, 1, 2, XFin(0)))  \* baseline
+       \/ \E x \in XSingles : Put(XCase(g.op, <<x>>, 1, 1, 1, XFin(0)))                  \* r = a = b
+  ELSE \E x \in XSingles : \E sc \in XE :
+            \/ Put(XCase(g.op, <<x>>, 1, 1, 0, sc))                                      \* r = a
+            \/ Put(XCase(g.op, <<x, XPrior(Len(x))>>, 2, 1, 0, sc))                      \* baseline
+
+(***************************************************************************)
 (*                          the enumeration machine                        *)
 (***************************************************************************)
 NoGroup == [fam |-> "-"]
@@ -469,7 +524,7 @@ Init == ph = "start" /\ grp = NoGroup /\ c = NoCase
 PickGroup ==
   /\ ph = "start"
   /\ \/ Part = "scalar" /\ grp' \in {g \in ScalarGroups : SGroupOK(g)} \cup {g \in ReduceGroups : g.ri <= RLen(g.op)}
-     \/ Part = "cont"   /\ grp' \in {[g EXCEPT !.rot = k] : g \in ContGroups, k \in Rots}
+     \/ Part = "cont"   /\ grp' \in {[g EXCEPT !.rot = k] : g \in ContGroups, k \in Rots} \cup {XGroup(op) : op \in XOps \cup XSOps}
   /\ ph' = "group" /\ UNCHANGED c
 
 Put(k) == /\ c' = k
@@ -485,12 +540,17 @@ EmitReduce ==
   /\ Put(RCase(grp))
   /\ ph' = "case" /\ UNCHANGED grp
 
+EmitSpecial ==
+  /\ ph = "group" /\ grp.fam = "xcont"
+  /\ ForSpecial(grp, Put)
+  /\ ph' = "case" /\ UNCHANGED grp
+
 EmitCont ==
   /\ ph = "group" /\ grp.fam = "cont"
   /\ ForCont(grp, Put)
   /\ ph' = "case" /\ UNCHANGED grp
 
-Next == PickGroup \/ EmitScalar \/ EmitReduce \/ EmitCont
+Next == PickGroup \/ EmitScalar \/ EmitReduce \/ EmitCont \/ EmitSpecial
 Spec == Init /\ [][Next]_vars
 
 (***************************************************************************)
